@@ -24,12 +24,12 @@ CLAIMS = {
         level="proof", design="DESIGN.md section 3, C08 (PARTIAL: accelerated flight, rounding-decided geometry)",
         technique="Lean 4 + Mathlib proofs over the reals of the reflection laws for the reflector definitions regenerated from reflector_{mirror,bounce_back,stochastic}.h by symbolic execution; Lean 4 proofs (core Rat) about a model of the collision loop (Cell::doCollision, checkForHit, WallTriangle::hit, checkNewPosition) for force-free flight in a cuboid: termination, earliest hit, confinement and constant particle number over any number of steps under a no-exact-edge-hit hypothesis, witness of the exact-edge defect; correspondence of outcome, velocity (exact), position and cell with the real binary; oracles for all reflectors with and without forces",
         text="Mirror reverses exactly the normal velocity component and keeps the tangential ones and the speed; bounce-back reverses v; the stochastic reflector keeps the speed and re-emits inward for every pair of random numbers; r' = hit + eps n lies inside (all over R, for the generated definitions). C08_confined_cuboid / C08_count_run: force-free particles stay strictly between the walls and their number is constant for every step count, or the documented error is raised, provided no hit is exactly on an edge; C08_edge_witness shows that an exact edge hit with ReflectorMirror loses the particle - reproduced on the binary and recorded as known finding. PARTIAL: accelerated flight, c_wt_dist_eps decisions in doubles, STL walls, the stochastic reflector inside the loop are covered by the oracles only.",
-        note=BASE_NOTE + "The collision-loop model is hand-written (tie: correspondence); the reflector laws are about regenerated definitions (tie: translator + rat-instance bridge theorems). eps/delta/geps enter the model as the exact rational values of the C++ doubles."),
+        note=BASE_NOTE + "The collision-loop model is hand-written; translate/t_collide.py regenerates its decisions (loop bound, per-pass reset of the earliest-hit search, strictness of the time comparisons, linear hit time, hitPos, epsilons) and Props/CollideBridge.lean proves them equal to the model's; the reflector laws are about regenerated definitions (translator + rat-instance bridge theorems); plus the correspondence. eps/delta/geps enter the model as the exact rational values of the C++ doubles."),
     "C20": dict(
         level="proof", design="DESIGN.md section 3, C20 (PARTIAL: freedom from data races)",
         technique="Lean 4 proofs about a model of the OpenMP build (round-robin link->thread assignment over any activation history, per-thread pair lists, per-thread copy cells, accumulation as ANY interleaving of atomic +=, serial merge that zeroes the copies, slot reuse across stages): partition, commutation, merge = serial sum, no leak, independence of the thread count; correspondence of the real OpenMP binary's link->thread assignment and per-thread pair lists with the model; serial-vs-OpenMP bit-identity runs for T in {1,2,4,8,16}",
         text="C20_assignment/round_robin, C20_partition_links/pairs, C20_run_independent (every interleaving of the threads' accumulation steps gives the same copies), C20_merge(_pointwise), C20_steps(_every), C20_equal, C20_thread_count_independent, C20_layout_disjoint; the real OpenMP flavour assigns links as the model says, its per-thread lists partition the serial list, and every particle datum equals the serial flavour's bit for bit (exact-arithmetic regime) for every explored scenario, thread count and repetition. PARTIAL: that real threads touch only their own copies (no data race) is assumed by the model; only the repeated identical runs speak for it.",
-        note=BASE_NOTE + "Hand-written model; the tie is the correspondence with a second build flavour (-fopenmp) of the same tree. Module kinds outside the scenario generator (thermostats, DPD, tensor symbols) are not covered."),
+        note=BASE_NOTE + "Hand-written model; translate/t_threads.py regenerates the round-robin counter of activateCellLink and the shape of the mergeCopies statements from the OpenMP branch of the source (Props/ThreadsBridge.lean); plus the correspondence with a second build flavour (-fopenmp) of the same tree. Module kinds outside the scenario generator (thermostats, DPD, tensor symbols) are not covered."),
     "C03": dict(
         level="proof", design="DESIGN.md section 3, C03 (PARTIAL: clashing variable names; gcc/libm trusted)",
         technique="Lean 4 proofs about an executable model of the expression language (character-level parser driven by the operator table regenerated from the source in registration order, interpreter over Rat, C emitter producing the same strings as toC(), reader/evaluator for the emitted C subset): emitter soundness against the interpreter for every well-formed tree, absence of integer-typed divisions in emitted text, totality of the parser, usual precedence/associativity with redundant parentheses, documented meaning of every operator and function; correspondence of parse trees, types, every emitted C string, interpreter values and gcc-compiled values with the real code; independent reference evaluator as oracle",
@@ -89,7 +89,7 @@ CLAIMS = {
         level="proof", design="DESIGN.md section 3, C06",
         technique="Lean 4 proofs about a transcription of Symbol::findStage / setSymbolStages / runSymbols order (stage correctness, uniqueness under permutation, cycle => error, termination bound, value order-independence); correspondence on random dependency graphs x module orders on the real binary (stages, execution trace, all values exact)",
         text="For every symbol list: a successful stage assignment puts every symbol strictly after all other producers of what it reads, equals the longest-path level and is therefore the same for every module order; cycles always end in the stageIterations error; acyclic graphs of depth < stageIterations succeed in every order; scheduled evaluation never reads a stale value. The model's stages equal the real binary's for every explored graph and order, and the real values equal a direct evaluation in all orders.",
-        note=BASE_NOTE + "The model is hand-written (no translator): the tie is the correspondence only. Triplet/quintet and bonded calculators and the '_0' table are treated as further producers but not generated in scenarios; a candidate defect outside C06's statement (triplet calculators staged above every particle/pair stage are never run) is recorded in DESIGN.md."),
+        note=BASE_NOTE + "The model is hand-written; translate/t_stages.py regenerates the producer-update rule from ALL its sites in symbol.cpp (uniform form, self exclusion) and the stageIterations default/bound, and Props/StagesBridge.lean proves the rule equal to the model's `visit`; plus the correspondence. Triplet/quintet and bonded calculators and the '_0' table are treated as further producers but not generated in scenarios; a candidate defect outside C06's statement (triplet calculators staged above every particle/pair stage are never run) is recorded in DESIGN.md."),
     "C14": dict(
         level="proof", design="DESIGN.md section 3, C14",
         technique="Lean 4 invariant/frame proofs over ALL op sequences of a DataFormat/Data model with an explicit refcounted heap; tables (enum, sizeof/alignof by compiled probe, alignment rule, container and text case tables, fall-through flag) regenerated from data_format.h/.cpp; differential correspondence on random op sequences (ASan/UBSan/LSan harness); property-level oracle families on the real classes",
